@@ -27,10 +27,10 @@ From PV Require Import Fort.Syntax Fort.Sem C11.Access C12.InOut.
 Open Scope Z_scope.
 (* one case = a region with its variants (option, reported inputs, reported outputs, culprit variables);
    result per variant = (lists agree with the model, safe, reads_safe, reason code of every culprit) *)
-Definition variant := (bool * list name * list name * list name)%type.
+Definition variant := (bool * bool * list name * list name * list name)%type.
 Definition eval_variant (r : list stmt) (v : variant) : bool * bool * bool * list nat :=
-  match v with (sh, ins, outs, cs) =>
-    (io_agrees (r, sh, ins, outs), safe sh r, reads_safe sh r, map (reason sh r) cs) end.
+  match v with (sh, answered, ins, outs, cs) =>
+    (if answered then accs_ok sh r && io_agrees (r, sh, ins, outs) else negb (accs_ok sh r), if sh then safe_ext sh r else safe sh r, reads_safe sh r, map (reason sh r) cs) end.
 Definition eval_case (c : list stmt * list variant) := map (eval_variant (fst c)) (snd c).
 """
 
@@ -89,13 +89,56 @@ class Gen12(fortgen.Gen):
     first written under a condition, arrays written at one element and read at another, DO loops
     whose bounds read the loop variable."""
 
-    def expr(self, env, depth=0):
+    INQ = (("ISize", lambda lb, ub: ub - lb + 1), ("ILbound", lambda lb, ub: lb), ("IUbound", lambda lb, ub: ub))
+
+    def inquiry(self):
+        """(expression, its value under the declared bounds)"""
         r = self.r
-        if depth >= 1 and r.random() < 0.06:
-            a = r.choice(sorted(self.arrays))
-            return ("intr", r.choice(["ISize", "ILbound", "IUbound"]),
-                    [("var", a), ("lit", r.randint(1, len(self.arrays[a])))])
+        a = r.choice(sorted(self.arrays))
+        d = r.randint(1, len(self.arrays[a]))
+        f, fn = r.choice(self.INQ)
+        lb, ub = self.arrays[a][d - 1]
+        return ("intr", f, [("var", a), ("lit", d)]), fn(lb, ub)
+
+    def expr(self, env, depth=0):
+        if self.r.random() < 0.07:
+            return self.inquiry()[0]
         return super().expr(env, depth)
+
+    def subscript(self, env, lb, ub):
+        """also subscripts computed from the extent of (another) array, in range for the declared bounds"""
+        r = self.r
+        if r.random() < 0.12:
+            for _ in range(4):
+                e, v = self.inquiry()
+                ds = [d for d in (0, 0, 1, -1, 2, -2, 3, -3) if lb <= v + d <= ub]
+                if ds:
+                    d = r.choice(ds)
+                    return e if d == 0 else ("bin", "Add" if d > 0 else "Sub", e, ("lit", abs(d)))
+        return super().subscript(env, lb, ub)
+
+    def cond(self, env):
+        r = self.r
+        if r.random() < 0.15:
+            return ("bin", r.choice(["Lt", "Le", "Gt", "Ge", "Eq", "Ne"]), self.inquiry()[0], self.expr(env, 1))
+        return super().cond(env)
+
+    def loop(self, env, depth, in_loop):
+        """some loops run over the extent of an array: do v = lbound(a,1), ubound(a,1)"""
+        r = self.r
+        one_d = [x for x in sorted(self.arrays) if len(self.arrays[x]) == 1]
+        free = [v for v in fortgen.LOOPVARS if v not in env]
+        if r.random() < 0.2 and one_d and free:
+            a = r.choice(one_d)
+            v = free[0]
+            env2 = dict(env)
+            env2[v] = self.arrays[a][0]
+            body = self.block(env2, depth + 1, True, r.randint(1, 2))
+            lo = ("intr", "ILbound", [("var", a), ("lit", 1)])
+            hi = r.choice([("intr", "IUbound", [("var", a), ("lit", 1)]),
+                           ("bin", "Sub", ("bin", "Add", lo, ("intr", "ISize", [("var", a), ("lit", 1)])), ("lit", 1))])
+            return ("do", v, lo, hi, ("lit", 1), body)
+        return super().loop(env, depth, in_loop)
 
     def assign(self, env):
         """half of the array assignments are read-modify-write (the array is then an input)."""
@@ -108,8 +151,18 @@ class Gen12(fortgen.Gen):
 
     def targeted(self, env):
         r = self.r
-        k = r.randint(0, 5)
+        k = r.randint(0, 6)
         sc = r.choice(["s", "t", "m"])
+        if k == 6:      # element selected by the extent of ANOTHER array, on the left-hand side
+            one_d = [x for x in sorted(self.arrays) if len(self.arrays[x]) == 1]
+            a = r.choice(one_d)
+            lb, ub = self.arrays[a][0]
+            for _ in range(6):
+                e, v = self.inquiry()
+                if e[2][0][1] != a and any(lb <= v + d <= ub for d in (0, 1, -1, 2, -2)):
+                    d = r.choice([d for d in (0, 1, -1, 2, -2) if lb <= v + d <= ub])
+                    ix = e if d == 0 else ("bin", "Add" if d > 0 else "Sub", e, ("lit", abs(d)))
+                    return [("assign", a, [ix], ("bin", "Add", ("idx", a, [("lit", lb)]), ("lit", 1)))]
         if k == 0:      # partial array write then read of another element
             a = r.choice([x for x in sorted(self.arrays) if len(self.arrays[x]) == 1])
             lb, ub = self.arrays[a][0]
@@ -155,8 +208,11 @@ class Gen12(fortgen.Gen):
 def impl_ctu(nodes, sh):
     from psyclone.psyir.tools import CallTreeUtils
     opts = {"COLLECT-ARRAY-SHAPE-READS": True} if sh else None
-    rw = CallTreeUtils().get_in_out_parameters(nodes, options=opts)
-    return (sorted(str(s).lower() for s in rw.signatures_read),
+    try:
+        rw = CallTreeUtils().get_in_out_parameters(nodes, options=opts)
+    except NotImplementedError as e:
+        return ("raises", str(e)[:100])
+    return ("ok", sorted(str(s).lower() for s in rw.signatures_read),
             sorted(str(s).lower() for s in rw.signatures_written))
 
 
@@ -202,7 +258,13 @@ def impl_extract(psy, path, lo, hi):
         ExtractTrans().apply(sched.children[lo:hi])
     except TransformationError as e:
         return ("refused", str(e.value)[:120])
-    txt = FortranWriter()(c)
+    from psyclone.psyir.backend.visitor import VisitorError
+    try:
+        txt = FortranWriter()(c)
+    except (VisitorError, NotImplementedError) as e:
+        if "appears more than once on the left-hand side" in str(e):
+            return ("raises", "NotImplementedError: appears more than once on the left-hand side")
+        raise
     pre = txt.split("PreEndDeclaration", 1)[1].split("PreEnd", 1)[0]
     post = txt.split("PostStart", 1)[1].split("PostEnd", 1)[0]
     return ("ok", sorted(x.lower() for x in PV_RE.findall(pre)), sorted(x.lower() for x in PV_RE.findall(post)))
@@ -220,6 +282,48 @@ def schedules(routine):
             rec(ch, path + [i])
     rec(routine, [])
     return out
+
+
+def e_inq(e, acc):
+    k = e[0]
+    if k == "idx":
+        for x in e[2]:
+            e_inq(x, acc)
+    elif k == "un":
+        e_inq(e[2], acc)
+    elif k == "bin":
+        e_inq(e[2], acc)
+        e_inq(e[3], acc)
+    elif k == "intr":
+        if e[1] in ("ISize", "ILbound", "IUbound") and e[2] and e[2][0][0] == "var":
+            acc.append(e[2][0][1])
+        for x in e[2]:
+            e_inq(x, acc)
+    return acc
+
+
+def inq_of(ss, acc=None):
+    acc = [] if acc is None else acc
+    for s in ss:
+        k = s[0]
+        if k == "assign":
+            for x in s[2]:
+                e_inq(x, acc)
+            e_inq(s[3], acc)
+        elif k == "if":
+            e_inq(s[1], acc)
+            inq_of(s[2], acc)
+            inq_of(s[3], acc)
+        elif k == "do":
+            for x in s[2:5]:
+                e_inq(x, acc)
+            inq_of(s[5], acc)
+        elif k == "print":
+            for x in s[1]:
+                e_inq(x, acc)
+        elif k in ("region", "dir"):
+            inq_of(s[2], acc)
+    return acc
 
 
 # ------------------------------------------------------------------ the property, evaluated directly
@@ -245,9 +349,11 @@ def exposed(tr):
     return out
 
 
-def check_region(region, ins, outs, vals, bnds, allvars):
+def check_region(region, ins, outs, vals, bnds, allvars, vary_extents):
     """-> list of (culprit variable, what, detail) ; [] if the property held on this store;
-    None if the run from this store faults / runs out of fuel (nothing to check)."""
+    None if the run from this store faults / runs out of fuel (nothing to check).
+    vary_extents (the ExtractNode variant, option COLLECT-ARRAY-SHAPE-READS on): the extents of the recorded
+    variables (inputs, outputs) are recorded state; the replay also changes the extent of every other array."""
     r1 = mf.interp(region, vals, bnds, fuel=40000)
     if r1[0] != "ok":
         return None
@@ -261,15 +367,24 @@ def check_region(region, ins, outs, vals, bnds, allvars):
     for k, l in tr1:
         if k == "W" and l[0] not in outs:
             return [(l[0], "write-not-output", {"location": l})]
-    # (2) replay: poison everything that is not a reported input
+    # (2) replay: poison everything that is not a reported input (values; and extents when they are state)
     bad = []
+    b2 = dict(bnds)
+    if vary_extents:
+        for x in bnds:
+            if x not in ins and x not in outs:
+                b2[x] = [(lo, hi + 3) for lo, hi in bnds[x]]
     v2 = dict(vals)
     for x in allvars:
         if x not in ins:
-            for n, l in enumerate(locations(x, bnds)):
+            for n, l in enumerate(locations(x, b2)):
                 v2[l] = POISON + 13 * n + (sum(map(ord, x)) % 97)
-    r2 = mf.interp(region, v2, bnds, fuel=40000)
+    r2 = mf.interp(region, v2, b2, fuel=40000)
     if r2[0] != "ok" or r2[3] != c1 or r2[2] != tr1:
+        unrec = [a for a in inq_of(region) if a not in ins and a not in outs]
+        if vary_extents and unrec:
+            return [(unrec[0], "extent-read-not-recorded",
+                     {"outcome": r2[0], "extent_in_recording_run": bnds[unrec[0]], "extent_in_replay": b2[unrec[0]]})]
         return [("?", "replay-diverges-without-exposed-read", {"outcome": r2[0]})]
     s2 = r2[1]
     written = {l for k, l in tr1 if k == "W"}
@@ -354,26 +469,32 @@ def run(ctx):
                     n_oos += 1
                     continue
                 rtxt = "\n".join(mf.stmts_to_fortran(region))
-                variants = [(False, ("ok",) + impl_ctu(nodes, False))]
+                variants = [(False, impl_ctu(nodes, False))]
                 ex = impl_extract(psy, path, lo, hi)
-                if ex[0] == "ok":
+                if ex[0] in ("ok", "raises"):
                     variants.append((True, ex))
                     ctu_on = impl_ctu(nodes, True)
-                    if (ex[1], ex[2]) != ctu_on:
+                    if ex[0] != ctu_on[0] or (ex[0] == "ok" and ex != ctu_on):
                         n_optdiff[0] += 1
-                    if (ex[1], ex[2]) != ctu_on and n_optdiff[0] <= 2:
-                        ctx.violation({"property": "C12", "what": "ExtractNode lists differ from get_in_out_parameters "
-                                       "with the ExtractTrans default options", "region": rtxt,
-                                       "extract_node": ex[1:], "call_tree_utils": ctu_on}, no_input=True)
+                        if n_optdiff[0] <= 2:
+                            ctx.violation({"property": "C12", "what": "ExtractNode lists differ from get_in_out_parameters "
+                                           "with the ExtractTrans default options", "region": rtxt,
+                                           "extract_node": ex[1:], "call_tree_utils": ctu_on[1:]}, no_input=True)
                 else:
                     n_refused += 1
                     ctx.hist("extract_refused", ex[1][:60])
                 reg = {"tag": tag, "region": rtxt, "stmts": region, "nm": nm, "stores": stores, "bnds": bnds,
                        "routine": txt, "span": (path, lo, hi), "coq": mf.stmts_to_coq(region, nm), "variants": []}
-                for sh, (_, ins, outs) in variants:
+                for sh, res_v in variants:
+                    if res_v[0] == "raises":
+                        reg["variants"].append({"sh": sh, "answered": False, "ins": [], "outs": [], "fails": []})
+                        ctx.count((rtxt, sh), False)
+                        ctx.hist("impl_raises_NotImplementedError", sh)
+                        continue
+                    _, ins, outs = res_v
                     ran, fails, seen = False, [], set()
-                    for si, (vals, _) in enumerate(stores):
-                        res = check_region(region, set(ins), set(outs), vals, bnds, allvars)
+                    for si, (vals, sb) in enumerate(stores):
+                        res = check_region(region, set(ins), set(outs), vals, sb, allvars, sh)
                         if res is None:
                             continue
                         ran = True
@@ -381,7 +502,7 @@ def run(ctx):
                             if (culprit, what) not in seen:
                                 seen.add((culprit, what))
                                 fails.append((culprit, what, detail, si))
-                    reg["variants"].append({"sh": sh, "ins": ins, "outs": outs, "fails": fails})
+                    reg["variants"].append({"sh": sh, "answered": True, "ins": ins, "outs": outs, "fails": fails})
                     ctx.count((rtxt, sh), ran and bool(ins or outs))
                     ctx.hist("region_len", hi - lo)
                     ctx.hist("nested", bool(path))
@@ -405,7 +526,14 @@ def run(ctx):
             break
         g = Gen12(rng, max_depth=2)
         prog = g.block({}, 0, False, rng.randint(2, 5))
-        stores = [g.store() for _ in range(nstores)]
+        stores = []
+        for k in range(nstores):             # array extents are part of the incoming state: vary them
+            vals, b = g.store()
+            b = {a: [(lo, hi + (0 if k == 0 else rng.choice([0, 1, 2]))) for lo, hi in bs] for a, bs in b.items()}
+            for a in b:
+                for l in locations(a, b):
+                    vals.setdefault(l, rng.randint(-4, 9))
+            stores.append((vals, b))
         do_routine(prog, g, "gen%d" % pi, stores)
     ncases = sum(len(r["variants"]) for r in regions)
     nfail = sum(len(v["fails"]) for r in regions for v in r["variants"])
@@ -425,7 +553,8 @@ def run(ctx):
         for v in r["variants"]:
             culprits = [c if c in r["nm"].ids else None for c, _, _, _ in v["fails"]]
             v["culprit_ids"] = culprits
-            vs.append("(%s, %s, %s, %s)" % ("true" if v["sh"] else "false", names(r, v["ins"]), names(r, v["outs"]),
+            vs.append("(%s, %s, %s, %s, %s)" % ("true" if v["sh"] else "false", "true" if v["answered"] else "false",
+                                                names(r, v["ins"]), names(r, v["outs"]),
                                             names(r, [c for c in culprits if c is not None])))
         coq_cases.append("(%s, %s)" % (r["coq"], core.coq_list(vs)))
     results = coq_eval_values(ctx, HEADER, "list stmt * list variant", "eval_case", coq_cases, shard=ctx.pick(70, 100))
@@ -448,7 +577,8 @@ def run(ctx):
              "how_to_replay": "FortranReader().psyir_from_source(routine); CallTreeUtils().get_in_out_parameters("
                               "<children[lo:hi] of the schedule at path>) (option on: ExtractTrans().apply + written "
                               "ProvideVariable calls); run the region from the store below and from the same store with "
-                              "every non-input variable changed"}
+                              "every non-input variable changed (option on: also with a different extent of every array that is "
+                              "neither a reported input nor a reported output)"}
         d.update(extra)
         return d
 
@@ -458,7 +588,8 @@ def run(ctx):
         for v in r["variants"]:
             for (culprit, what, detail, si), k in zip(v["fails"], v["reasons"]):
                 info = replay_of(r, v, {"culprit_variable": culprit, "failure": what, "detail": detail,
-                                        "store": sorted(r["stores"][si][0].items()), "reason_code": k})
+                                        "store": sorted(r["stores"][si][0].items()),
+                                        "array_bounds": r["stores"][si][1], "reason_code": k})
                 if k not in KEYS:
                     # k = 0: the first-access rule itself says the variable IS an input (or the culprit is unknown)
                     if reported < 3:
